@@ -560,6 +560,13 @@ class Check:
         EVID.mkdir(exist_ok=True)
         (EVID / f"{self.pid}.json").write_text(json.dumps(ev, indent=1, default=repr) + "\n")
         n = len(self.violations)
+        if n:
+            groups = {}
+            for v in self.violations:
+                k = json.dumps(v["fingerprint"], sort_keys=True)
+                groups[k] = groups.get(k, 0) + 1
+            for k, c in sorted(groups.items(), key=lambda kv: -kv[1])[:15]:
+                print(f"  violations with fingerprint {k}: {c}")
         print(
             f"{self.pid} [{self.tier}] states={self.states} transitions={self.transitions} "
             f"impl_cases={self.traces} violations={n} known={sum(v['count'] for v in self.known_hits.values())} "
